@@ -154,5 +154,6 @@ pub fn run(cfg: &Cfg) {
     }
     let _ = s("");
     let _ = J::Null;
+    crate::spl::periodic_partial_mismatch(&mut rep, &mut rng, thorough);
     rep.finish("n-d data sets with trailing shapes (1), (3), (2,2), (2,1,3), (1,1), (3,2), (2,0), (2,1,2,1), (1,2,1,1,2), (4) -- i.e. data of 2..6 static and dynamic dimensions incl. length-1 and length-0 axes -- for Linear, CubicSpline (whole-data-set boundaries, Periodic, Individual arrays with a different condition per lane) and Bilinear: every lane compared with an interpolator built from that lane alone (exact at rationals, bitwise at f64), static vs dynamic dimension types, and one lane kept while every other lane's values (incl. NaN) and boundary conditions are changed");
 }
